@@ -111,7 +111,7 @@ func runHist(w *world, in histIn) (out histOut) {
 	}
 	defer func() {
 		for _, t := range tunID {
-			bounded(func() { w.fx.Session.VerifDropBridge(t) })
+			w.fx.Session.VerifForgetBridge(t)
 			if w.routing != nil {
 				_ = w.routing.RemoveWaitingTunnel(context.Background(), t)
 			}
@@ -292,7 +292,17 @@ func runHist(w *world, in histIn) (out histOut) {
 			}
 		case "close":
 			had := routeVisible(st.Tun) && w.fx.Session.VerifBridge(tunID[st.Tun]) != nil
-			bounded(func() { w.fx.Session.VerifDropBridge(tunID[st.Tun]) })
+			if fb := w.fx.Session.VerifForgetBridge(tunID[st.Tun]); fb != nil {
+				// the bridge ends the way it does in production: its ends go away, its own lifecycle goroutine cleans up
+				for _, o := range opens {
+					if k := o.step + 1; k == byStream(fb.GetSourceTunnelConn()) || k == byStream(fb.GetTargetTunnelConn()) {
+						o.fc.Close()
+					}
+				}
+				if w.routing != nil {
+					_ = w.routing.RemoveWaitingTunnel(context.Background(), tunID[st.Tun])
+				}
+			}
 			if had { // runBridgeLifecycle removes the routing record asynchronously: wait for it (positive)
 				dl := time.Now().Add(5 * time.Second)
 				for routeVisible(st.Tun) && time.Now().Before(dl) {
